@@ -56,27 +56,107 @@ def check(ctx):
                 if any(isinstance(x, tuple) and x[:1] == ("regtop",) for x in _subs(it)):
                     wholes.append(e)
     n_access = 0
-    # idiom: the registry is an element of a tuple/list display that a for statement iterates, and the loop variable is used
-    # in the body only as the base of a subscript; the subscripts through that variable are then the accesses of the site
+    # a whole registry may travel before it is subscripted: into a local alias, into a tuple/list display that a for statement
+    # iterates (the loop variable then stands for it), or as an argument into a parameter of a repository method.  Followed
+    # syntactically; every use of the carrying name must again be one of these or the base of a subscript, and the subscripts
+    # reached this way (REGADDR events at those positions) are the accesses of the site.
     parents = {}
+    fn_of = {}
     for mn in sorted(proto_mods):
-        for n in ast.walk(prog.modules[mn].tree):
+        m = prog.modules[mn]
+        for n in ast.walk(m.tree):
             for ch in ast.iter_child_nodes(n):
                 parents[ch] = n
+        for f in prog.funcs.values():
+            if f.module is m:
+                for n in ast.walk(f.node):
+                    fn_of.setdefault(n, f)
+    methods_by_name = {}
+    for f in prog.funcs.values():
+        if f.cls is not None and f.module.name in proto_mods:
+            methods_by_name.setdefault(f.name, []).append(f)
+
+    def enclosing(n):
+        # innermost function containing n
+        best = None
+        for f in prog.funcs.values():
+            if f.module.name in proto_mods and f.node.lineno <= n.lineno <= (f.node.end_lineno or 10 ** 9):
+                if any(x is n for x in ast.walk(f.node)):
+                    if best is None or f.node.lineno >= best.node.lineno:
+                        best = f
+        return best
+
+    def flow(node, path, depth=0):
+        """Positions (file, line, col) of subscript bases the value of expression `node` reaches, or None if it escapes."""
+        if depth > 6:
+            return None
+        par = parents.get(node)
+        if isinstance(par, ast.Subscript) and par.value is node:
+            return [(path, node.lineno, node.col_offset)]
+        f = enclosing(node)
+        if f is None:
+            return None
+
+        def name_uses(var, scope_nodes, after=None):
+            out = []
+            for st in scope_nodes:
+                for n in ast.walk(st):
+                    if isinstance(n, ast.Name) and n.id == var:
+                        if isinstance(n.ctx, ast.Load):
+                            out.append(n)
+                        elif n is not after:
+                            return None          # re-bound: give up
+            return out
+
+        def follow(var, scope_nodes, binder=None):
+            uses = name_uses(var, scope_nodes, binder)
+            if not uses:
+                return None
+            acc = []
+            for u in uses:
+                r = flow(u, path, depth + 1)
+                if r is None:
+                    return None
+                acc += r
+            return acc
+        if isinstance(par, ast.Assign) and par.value is node and len(par.targets) == 1 and isinstance(par.targets[0], ast.Name):
+            return follow(par.targets[0].id, f.node.body, par.targets[0])
+        if isinstance(par, (ast.Tuple, ast.List)):
+            loop = parents.get(par)
+            if isinstance(loop, ast.For) and loop.iter is par and isinstance(loop.target, ast.Name):
+                return follow(loop.target.id, loop.body, loop.target)
+            return None
+        if isinstance(par, ast.Call) and node in par.args and isinstance(par.func, ast.Attribute) \
+                and isinstance(par.func.value, ast.Name) and par.func.value.id == "self":
+            cands = methods_by_name.get(par.func.attr, [])
+            if len(cands) != 1:
+                return None
+            g = cands[0]
+            idx = par.args.index(node) + (0 if g.is_static else 1)
+            if idx >= len(g.params):
+                return None
+            pname = g.params[idx]
+            uses = name_uses(pname, g.node.body)
+            if not uses:
+                return None
+            acc = []
+            for u in uses:
+                r = flow(u, g.file, depth + 1)
+                if r is None:
+                    return None
+                acc += r
+            return acc
+        return None
+
     for key, node in sorted(sites.items()):
         if key in covered:
             continue
-        disp = parents.get(node)
-        loop = parents.get(disp) if isinstance(disp, (ast.Tuple, ast.List)) else None
-        if not (isinstance(loop, ast.For) and loop.iter is disp and isinstance(loop.target, ast.Name)):
-            continue
-        var = loop.target.id
-        uses = [n for st in loop.body for n in ast.walk(st) if isinstance(n, ast.Name) and n.id == var]
-        if not uses or not all(isinstance(u.ctx, ast.Load) and isinstance(parents.get(u), ast.Subscript) and parents[u].value is u for u in uses):
+        reached = flow(node, key[0])
+        if not reached:
             continue
         via = []
-        for u in uses:
-            via += covered.get((key[0], u.lineno, u.col_offset), [])
+        for pos in reached:
+            via += covered.get(pos, [])
         via = [(c, e) for c, e in via if e.a["reg"] == node.attr]
         if via:
             covered[key] = via
@@ -95,7 +175,7 @@ def check(ctx):
                construct="%s/%s/key" % (fn, node.attr),
                msg="registry %s subscripted by %s, not by self.addr" % (node.attr, show(bad[0][1].a["key"]) if bad else ""))
     ctx.count("registry_access_sites", n_access)
-    ctx.floor("registry accesses in protocol code", n_access, 30)
+    ctx.floor("registry accesses in protocol code", n_access, 8)
     for e in wholes:
         ctx.ob("I-WHOLE", "%s whole-registry use" % where(e), False, where=where(e), function=e.func,
                construct="%s/whole-registry" % e.func, msg="protocol code uses a whole per-address registry: %s" % e.brief())
